@@ -809,18 +809,22 @@ def make_system(case, world):
 
     pr = world["pr"]
     base, unknowns, eqs = pr["base"], pr["unknowns"], pr["eqs"]
+    # the user's dictionaries in the user's own (possibly non-sorted) key order
+    eqs = [eqs[i] for i in case.get("eq_order", range(len(eqs)))]
+    unknowns = [unknowns[i] for i in case.get("u_order", range(len(unknowns)))]
+    nets = {u: world["nets"][u] for u in unknowns}
     dyn = {e: world["make_eq"](e) for e in eqs if pr["residuals"][e] is not None}
     kws = {u: world["cons_kwargs"](u) for u in unknowns}
     ws = {k: jinns_weight(v) for k, v in pr["wspec"].items()}
     obs_slice = {u: (kws[u]["obs_slice"] if kws[u]["obs_slice"] is not None else Ellipsis) for u in unknowns}
     if base == "ode":
         return SystemLossODE(
-            u_dict=world["nets"], dynamic_loss_dict=dyn,
+            u_dict=nets, dynamic_loss_dict=dyn,
             initial_condition_dict={u: kws[u]["initial_condition"] for u in unknowns},
             obs_slice_dict=obs_slice,
             loss_weights=LossWeightsODEDict(**ws), params_dict=world["params"])
     kw = dict(
-        u_dict=world["nets"], dynamic_loss_dict=dyn,
+        u_dict=nets, dynamic_loss_dict=dyn,
         omega_boundary_fun_dict={u: kws[u]["omega_boundary_fun"] for u in unknowns},
         omega_boundary_condition_dict={u: kws[u]["omega_boundary_condition"] for u in unknowns},
         norm_samples_dict={u: kws[u]["norm_samples"] for u in unknowns},
